@@ -209,6 +209,9 @@ def to_val(sv):
         return VStr(sv.t)
     if k == "uuid":
         return VUuid(sv.t)
+    if k == "blob":
+        from .iomodel import blob_val
+        return blob_val(sv.t)
     if k == "tuple":
         v = VNone
         for it in reversed(sv.x):
